@@ -391,6 +391,7 @@ func ruleCodec(c *Ctx) {
 		problem := ""
 		okAll := len(enum) > 0
 		texts := map[string]string{}
+		seenValue := map[int64]bool{}
 		for _, name := range sortedKeys(enum) {
 			skipped := false
 			for _, sk := range pr.skip {
@@ -400,6 +401,10 @@ func ruleCodec(c *Ctx) {
 				continue
 			}
 			k := enum[name]
+			if seenValue[k] {
+				continue // a second name for the same value (an alias constant)
+			}
+			seenValue[k] = true
 			pv, err := c.newFolder().foldCall(pf, []fval{{k: constant.MakeInt64(k), t: pf.Params[0].Type()}})
 			if err != nil || pv.k == nil || pv.k.Kind() != constant.String {
 				if os.Getenv("CRDCHECK_DEBUG") != "" {
@@ -1125,6 +1130,13 @@ func ruleScaleWire(c *Ctx) {
 // CIRCLEWIRE
 
 func ruleCircleWire(c *Ctx) {
+	// the conversions themselves, decided on 28 keys x 40 chains by folding when it folds
+	if fn := c.fn("op", "KeyConversionChain.Convert"); fn != nil {
+		if problem, n, ok := c.circleByFolding(); ok {
+			c.site(1)
+			c.check(problem == "", "op.KeyConversionChain.Convert|domain", c.pos(fn.Pos()), fname(fn), fmt.Sprintf("%d chains (28 keys x every chain of length 1 and 2, the chains x y x, twelve dominants, twelve subdominants, two long alternations) folded on NewCircleOfFifth(): each equals the composition of its steps and lists every supported spelling", n), fname(fn)+": "+problem)
+		}
+	}
 	// find
 	if fn := c.fn("op", "CircleOfFifth.find"); fn != nil {
 		c.site(1)
@@ -1980,6 +1992,28 @@ func (c *Ctx) checkYamlNodesAreStrings() {
 // one value.Decode into a local - and keeps exactly what that gave (through conversions and wrapping only): nothing else
 // looks at the node's text and nothing writes to the decoded local.
 func (c *Ctx) checkDecodersKeepWhatTheyRead() {
+	// the reader of instances hands on what the document says: between decoding and returning nothing is applied to the
+	// decoded instances (settings re-derived from the metadata would overwrite the typed fields the document carries)
+	if pi := c.fn("cmd", "parseInstances"); pi != nil {
+		c.site(1)
+		var others []string
+		for _, f := range c.regionFuncChainsList(pi) {
+			for _, ci := range callsIn(f) {
+				n := calleeName(ci.Common())
+				switch {
+				case strings.HasPrefix(n, "gopkg.in/yaml.v3."), strings.HasPrefix(n, "errorx."), strings.HasPrefix(n, "builtin."), strings.HasPrefix(n, "log/slog."), strings.HasPrefix(n, "logx."),
+					strings.HasPrefix(n, "fmt."), strings.HasPrefix(n, "slices.IndexFunc"), strings.HasPrefix(n, "slices.ContainsFunc"), strings.HasPrefix(n, "bytes."), strings.HasPrefix(n, "io."), strings.HasPrefix(n, "errors."):
+				default:
+					if callee := staticCallee(ci.Common()); callee != nil && c.isRepoFunc(callee) && pkgOfFunc(callee) == pkgOfFunc(pi) {
+						continue // a helper of the command package: looked into as part of the region
+					}
+					others = append(others, n+" ("+c.pos(ci.Pos())+")")
+				}
+			}
+		}
+		sort.Strings(others)
+		c.check(len(others) == 0, "decode|cmd.parseInstances|as-read", c.pos(pi.Pos()), fname(pi), "the decoded instances are handed on as the document says", fmt.Sprintf("%s applies %s to the decoded instances: what `write` plays is no longer what the document's fields say (e.g. settings re-derived from the metadata overwrite bpm / key / meter / velocity printed by `write conv`)", fname(pi), strings.Join(uniq(others), ", ")))
+	}
 	for _, fn := range c.srcFuncs() {
 		if fn.Name() != "UnmarshalYAML" || fn.Signature.Recv() == nil || len(fn.Params) != 2 || typeName(fn.Params[1].Type()) != "gopkg.in/yaml.v3.Node" {
 			continue
